@@ -115,17 +115,13 @@ Family(inits, ncs, lims, kinds, both, lists) ==
             init \in inits, nc \in ncs, lim \in lims, kind \in kinds, b \in {0, 3}, l \in lists}
      : s.bst \in Bst(s.kind, both)}
 
-Limits == (0 .. 13) \cup {NoLimit}
 All4   == {"std", "x35", "full", "int"}
 
 RECURSIVE Fam(_)
 Fam(c) ==
-  CASE c = "dbg"  -> Family({"std"}, {FALSE}, {NoLimit}, {"builtin"}, FALSE,
-                              {<<R(1, "out", "a", -1), R(1, "out", "m", -1)>>})
-    [] c = "neg"  -> Family({"std", "x35"}, BOOLEAN, {NoLimit}, {"builtin", "exec"}, FALSE,
+  \* family of the negative configurations (Bug # "none")
+  CASE c = "neg"  -> Family({"std", "x35"}, BOOLEAN, {NoLimit}, {"builtin", "exec"}, FALSE,
                               Seq1(Small \cup Alpha({1}, {"clob"}, {"a"}, {}, {})) \cup Seq2(Small, Small))
-    [] c = "tiny" -> Family({"std", "x35"}, {FALSE}, {NoLimit, 11}, {"builtin", "exec"}, TRUE,
-                              Seq1(Small) \cup {<<>>})
     \* quick -----------------------------------------------------------------
     \* every single redirection x every command kind, no limit
     [] c = "q1" -> Family({"std", "x35"}, BOOLEAN, {NoLimit}, AllKinds, TRUE, Seq1(Full1) \cup {<<>>})
@@ -145,11 +141,13 @@ Fam(c) ==
                           \cup {<<R(1, "out", "m", -1), R(1, "app", "a", -1)>>, <<>>})
     \* thorough --------------------------------------------------------------
     [] c = "t1" -> Family(All4, BOOLEAN, {NoLimit}, AllKinds, TRUE, Seq1(Full1) \cup {<<>>})
-                   \cup Family(All4, {FALSE}, 3 .. 13, AllKinds, FALSE, Seq1(Full1))
-    [] c = "t2" -> Family({"std", "x35"}, BOOLEAN, {NoLimit}, CoreKinds \cup {"function"}, FALSE,
+                   \cup Family(All4, {FALSE}, {3, 4, 5, 9, 10, 11, 12, 13}, AllKinds, FALSE, Seq1(Full1))
+    [] c = "t2" -> Family({"std", "x35"}, BOOLEAN, {NoLimit}, {"builtin", "special", "exec"}, FALSE,
                           Seq2(Mid, Mid))
-    [] c = "t3" -> Family({"std", "x35", "int"}, {FALSE}, {4, 10, 11, 12, 13}, CoreKinds, FALSE,
+    [] c = "t3" -> Family({"std", "x35", "int"}, {FALSE}, {10, 11, 12, 13}, {"builtin", "exec", "empty"}, FALSE,
                           Seq2(Small, Small))
+    \* the limit family again, for the model check with Sim = FALSE (no replay)
+    [] c = "posix" -> Fam("q2") \cup Fam("q4")
     [] c = "t4" -> Family({"std"}, {FALSE}, {NoLimit}, {"builtin", "exec"}, FALSE,
                           Seq3(Small, Small, Small))
     [] c = "thorough" -> Fam("t1") \cup Fam("t2") \cup Fam("t3") \cup Fam("t4")
